@@ -23,13 +23,17 @@ import tool
 import toy_crypto as T
 import wire
 
-MODULES = ["TLX.Props.C02Pipeline"]
+MODULES = ["TLX.Props.C02Pipeline", "TLX.Props.C02Capstone"]
 P = "TLX.Props.C02Pipeline."
 THEOREMS = [P + t for t in (
     "quic_conn_never_raises", "quic_machine_never_raises", "quic_run_never_raises", "quic_out_bytes_from_frames",
     "quic_out_addressed", "handleRecord_err_indep", "initial_keys_never_raise", "key_update_never_raises",
     "tls_no_raise_rtt1", "tls_quiet_rtt1", "one_rtt_crypto_keeps_keys", "tls_quiet_rtt1_counterexample",
     "after_tls_hp_exact", "after_tls_hp_unchanged", "decryptPacket_keeps", "feedPre_verOk", "handleTurn_verOk")]
+THEOREMS += ["TLX.Props.C02Capstone." + t for t in (
+    "quic_one_rtt_connection_exact", "quic_connection_exact_partial", "datagram_step", "feedAll_exact", "step_one_rtt_nc",
+    "genKeys_eq_rfc", "keysWf_rfc", "devQuic_rfc", "first_initial_rfc", "hello_establishes", "hello_establishes_rfc",
+    "crypto_not_exported", "est_keylog_irrelevant")]
 POINT = "run(): whole QUIC export, real tool vs TLX.QuicPipeline (toy AEAD + toy hp mask, real key schedule)"
 
 
